@@ -255,3 +255,28 @@ def u_interact(c):
 def u_interact_b(c):
     """Bounded stand-in for 'interact' (2 concrete entries with symbolic fields)."""
     _interact_harness(c, "bounded", 2)
+
+
+@unit("PteraNameError", ["C16"], [TR + ":PteraNameError.__init__", TR + ":PteraNameError.info"])
+def u_ptera_name_error(c):
+    """The error raised for a declared-only variable that nobody supplies: a NameError that identifies the variable and the function and
+    exposes the variable's recorded annotation and provenance -- also when the function is not instrumented any more at that moment (an
+    activation that began while it was: a generator advanced after its probe ended), where there is nothing recorded left to expose but
+    the error is still this error and not an internal one."""
+    it = Interp(c)
+    state = c.choose(3, "function")  # 0 instrumented, the variable is in the table; 1 instrumented, not in the table; 2 no table any more
+    entry = {"provenance": ["body", "external"][c.choose(2, "provenance")], "annotation": c.val("ann")}
+    attrs = {} if state == 2 else {"__ptera_info__": {"x": entry} if state == 0 else {"other": {}}}
+    fn = SymObj("fn", Val.ref(z3.IntVal(c.new_id())), attrs=attrs, closed=True)
+    st, e = run(it, it.get_global(TR, "PteraNameError"), ["x", fn])
+    c.prove("constructed-without-an-internal-error", st == "ok", note=f"{st} {e!r}")
+    if st != "ok":
+        return
+    c.prove("identifies-the-variable-and-the-function", e.fields.get("varname") == "x" and e.fields.get("function") is fn)
+    st, inf = run(it, it.getattr(e, "info"), [])
+    c.prove("info/exposes-the-recorded-entry", st == "ok" and (inf is entry if state == 0 else inf == {}), note=f"{inf!r}")
+    # the entry is kept by the error itself: it survives the removal of the table when the probe ends before the error is looked at
+    if state == 0:
+        del fn.attrs["__ptera_info__"]
+        st, inf2 = run(it, it.getattr(e, "info"), [])
+        c.prove("info/survives-deactivation", st == "ok" and inf2 is entry)
